@@ -25,7 +25,7 @@ func checkC01(c *Ctx) {
 R01.3 no identifier fixed by the template can capture or be captured by a user-supplied parameter/result name: fixed identifiers declared in the same scope as the parameters (redeclaration), declared in an inner scope around a use of a parameter (capture), or referring to package-level/predeclared names inside the parameters' scope (shadowing) are reported, unless allocated through Scope.AllocateName;
 R01.8 every function the built-in templates call is a text/template builtin or a key of template_funcs.FuncMap;
 R01.1 the import-collecting type switch (MethodScope.populateImportsHelper) has a case for every go/types type constructor except Tuple and TypeParam, and each case feeds every component type of that constructor into the recursion (Map: Key and Elem, Signature: Params and Results, ...), named types add their package and recurse into type arguments, unsafe.Pointer adds package unsafe;
-R01.5 the in-package decision is exactly 'pkgname == source package name && output directory == source directory';
+R01.5 the in-package decision is exactly 'pkgname == source package name && output directory == source directory'; Registry.addImport registers every new import under its path and under exactly the qualifier finally chosen (so two imports never share a qualifier), nil only for the in-package destination;
 R01.6 the formatter dispatch has one arm per declared Formatter constant (goimports, gofmt, noop), each calling the formatter of that name on the rendered bytes (noop returns them unchanged), and an error fall-through;
 R01.7 the destination import path comes from modfile.ModulePath of the nearest go.mod, with an error for an empty result.`
 	c.NotDecided = "type-correctness for all interfaces (type strings are opaque placeholders: types.TypeString semantics, alias/qualifier clashes with local declarations, goimports repair); shapes beyond the tier bound; user templates."
@@ -108,6 +108,8 @@ R01.7 the destination import path comes from modfile.ModulePath of the nearest g
 	goR015(c, r)
 	goR016(c, r)
 	goR017(c, r)
+	// qualifier bookkeeping: distinct imports never share a qualifier (shared with C15)
+	ruleAddImport(c, r, "R01.5")
 }
 
 // captureHazards implements R01.3 on one skeleton; returns the number of functions analysed.
